@@ -353,6 +353,13 @@ impl Family for SemFam {
         }
     }
 
+    fn objects_of(op: &SemOp) -> Vec<u32> {
+        match op {
+            // the shared slot is guarded by a Shuttle atomic of the program's own
+            SemOp::StartShared(_) | SemOp::AwaitShared | SemOp::CancelShared => vec![0x900, 0x901],
+            _ => vec![0x900],
+        }
+    }
     fn m_init(cfg: &SemCfg, _n: usize) -> SemM {
         SemM {
             fair: cfg.fair,
